@@ -224,6 +224,10 @@ Definition signed_slice_gen (fixed : bool) (w : swidth) (s : str) : outcome (lis
 Definition unsigned_slice_gen (fixed : bool) (w : uwidth) (s : str) : outcome (list N) :=
   if fixed && nilb s then Ok [] else map_out (unsigned_elem w) (split_on comma s).
 
+(* the current tree (with the fix: commit for finding 10) *)
+Definition signed_slice := signed_slice_gen true.
+Definition unsigned_slice := unsigned_slice_gen true.
+
 (* ---- decimal printer: strconv.FormatUint(n, 10) / FormatInt(z, 10) ---- *)
 Fixpoint dec_digits (fuel : nat) (n : N) (acc : str) : str :=
   match fuel with
